@@ -13,6 +13,7 @@ import DateutilVerif.Proofs.RRuleEasterYearly
 import DateutilVerif.Proofs.RRuleWeeknoYearly
 import DateutilVerif.Proofs.RRuleHourlyBy
 import DateutilVerif.Proofs.RRuleSecondly
+import DateutilVerif.Proofs.RRuleMinutelyBy
 
 namespace RRule
 open Cal
@@ -85,6 +86,10 @@ theorem iter_eq_spec_supported (a : Args) (r : Rule) (h : construct a = .ok r) (
   | minutely =>
     obtain ⟨hf, ⟨hi, hv, hz⟩, h1, h2, h3, h4, h5⟩ := hs
     exact iter_eq_spec_minutely ⟨hf, hi, hv, h1, h2, hz, h3, h4, h5⟩ h n hr
+  | minutelyByminute =>
+    obtain ⟨hf, ⟨hi, hv, hz⟩, h1, h2, h3, h4, h5⟩ := hs
+    obtain ⟨l, hl, _, hlr⟩ := someWith_elim h4
+    exact iter_eq_spec_minutely_byminute ⟨hf, hi, hv, h1, h2, hz, h3, ⟨l, hl, hlr⟩, h5⟩ h n hr
   | secondly =>
     obtain ⟨hf, ⟨hi, hv, hz⟩, h1, h2, h3, h4, h5⟩ := hs
     exact iter_eq_spec_secondly ⟨hf, hi, hv, h1, h2, hz, h3, h4, h5⟩ h n hr
